@@ -7,6 +7,7 @@ mod issuance;
 mod pools;
 mod psetview;
 mod sha256c;
+mod sighash;
 mod tok;
 mod util;
 mod wire;
@@ -47,6 +48,10 @@ fn main() {
         ("wire", "block") => wire::block(rest, &mut out),
         ("wire", "typed") => wire::typed(rest, &mut out),
         ("wire", "record") => wire::record(rest, &mut out),
+        ("sighash", "replay") => sighash::replay(rest, &mut out),
+        ("sighash", "sensitivity") => sighash::sensitivity(rest, &mut out),
+        ("sighash", "cache-replay") => sighash::cache_replay(rest, &mut out),
+        ("sighash", "cache-record") => sighash::cache_record(rest, &mut out),
         ("dynafed", "record") => dynafed::record(rest, &mut out),
         (m, c) => {
             eprintln!("unknown command {} {}", m, c);
